@@ -160,6 +160,7 @@ fn main() {
             trees_for(&mut rep, Mode::C12, tier, &["T-sur"], 3.0, (true, true), true);
             trees_for(&mut rep, Mode::C12, tier, &["T-struct", "T-num", "T-lit", "T-str", "T-tok", "T-mixed"], 0.5, (true, true), false);
             x_all(&mut rep, Mode::C12, tier);
+            pump_family(&mut rep, Mode::C12, tier);
             if !q {
                 u_all(&mut rep, Mode::C12, Tier::Quick, false);
             }
